@@ -163,7 +163,9 @@ def unknownLongOpt (name : Bytes) (arg : Bytes) : Opt :=
   ⟨none, ⟨0, name, OptionalArgument⟩, true, true, arg⟩
 
 /-- The option an item assigns; `lenient` also turns `badArg` into the option
-with that argument (what pkg/getopt does), strict reading assigns nothing. -/
+with that argument (what pkg/getopt did before fixes/C38-noarg-attached-arg.patch,
+and what `Complete` still reports as the option of a LAST word `--name=value`),
+the strict reading assigns nothing. -/
 def Item.toOpt (lenient : Bool) : Item → Option Opt
   | .option k sp l arg => some (known k sp l (argOf arg))
   | .badArg k sp v => if lenient then some (known k sp true v) else none
@@ -174,6 +176,11 @@ def Item.toOpt (lenient : Bool) : Item → Option Opt
   | .missing _ _ _ => none
 
 def optsOf (lenient : Bool) (items : List Item) : List Opt := items.filterMap (Item.toOpt lenient)
+
+/-- The options written `--name=value` although they take no argument (each an
+error for GNU/BSD), as `getopt.Option` values. -/
+def extraOf (items : List Item) : List Opt :=
+  items.filterMap fun | .badArg k sp v => some (known k sp true v) | _ => none
 
 def operandsOf (items : List Item) : List Bytes :=
   items.filterMap fun | .operand w => some w | _ => none
@@ -199,7 +206,7 @@ def isMissing : Item → Bool
 def accepted (items : List Item) : Bool :=
   !items.any isUnknown && !items.any isMissing && !items.any isBadArg
 
-/-- pkg/getopt reports no error for these items (it lets `badArg` through). -/
+/-- The unchanged pkg/getopt reports no error for these items (it lets `badArg` through). -/
 def acceptedLenient (items : List Item) : Bool :=
   !items.any isUnknown && !items.any isMissing
 
